@@ -847,6 +847,9 @@ class SRPKeyExchange(KeyExchange):
 
     def makeServerKeyExchange(self, sigHash=None):
         """Create SRP version of Server Key Exchange"""
+        if self.clientHello.srp_username is None:
+            # SRP cipher suite selected, but no SRP extension in ClientHello
+            raise TLSUnknownPSKIdentity("No SRP identity provided")
         srpUsername = bytes(self.clientHello.srp_username)
         #Get parameters from username
         try:
